@@ -219,6 +219,12 @@ def rule_panic(F, R, allow=None):
         p = work.pop()
         b = F.bodies[p]
         nxt = set(F.closures_in.get(p, ()))
+        # function items handed over as values (`.filter_map(Tag::from_stored)`) are called by the receiver
+        for fnname in F.fnitems_in.get(p, ()):
+            if fnname in F.bodies:
+                nxt.add(fnname)
+            else:
+                nxt |= set(F._norm_index().get(re.sub(r"::<[^>]*>", "", fnname), ()))
         for (_i, t) in F.calls_in.get(p, ()):
             if t.get("callee") and STORAGE_BOUNDARY.search(t["callee"]):
                 continue
